@@ -337,6 +337,12 @@ func zeroValue(t types.Type) Value {
 const sparseThreshold = 1 << 18
 
 func (e *Engine) newObj(t types.Type) *Obj {
+	if at, ok := t.Underlying().(*types.Array); ok && at.Len() > sparseThreshold && flatSize(at.Elem()) == 1 && !isAgg(at.Elem()) {
+		// make([]T, constant) is lowered to new([N]T): large scalar arrays live in paged objects
+		o := e.newArrayObj(at.Elem(), int(at.Len()))
+		o.typ = t
+		return o
+	}
 	n := flatSize(t)
 	o := &Obj{n: n, epoch: e.epoch, id: e.nextObj, typ: t}
 	e.nextObj++
